@@ -400,6 +400,87 @@ pub fn budget_case(dir: &std::path::PathBuf, j: usize, word: &[usize], verbose: 
     (steps, None)
 }
 
+/// The manager is busy (it awaits something inside a handler) while the tracker task goes on
+/// failing and finally succeeds: the reports pile up in the tracker queue and are worked off in one
+/// go when the manager is back. Pumped world (the harness plays the manager loop and can therefore
+/// stay away from the queues). `paused_from`: the manager is away from just before announce number
+/// `paused_from` (counting the re-announce's first attempt as 0) until after the good reply.
+pub fn busy_manager_case(dir: &std::path::PathBuf, word: &[usize], paused_from: usize, verbose: bool) -> (u64, Option<(&'static str, String)>) {
+    use crate::httpfake;
+    use crate::world::{Ev, World, WorldCfg};
+    use std::cell::RefCell;
+    use std::rc::Rc;
+    let t = Torrent::new("t", 5, &[("f", 15)], true);
+    let cfgs = vec![peer_cfg(0, true), peer_cfg(1, true)];
+    let mut w = World::new(&WorldCfg { torrent: t.clone(), have: vec![], peers: vec![cfgs[0].clone()], gated: false, stale: vec![] }, dir);
+    let dialled: Rc<RefCell<Vec<String>>> = Rc::new(RefCell::new(vec![]));
+    let announces: Rc<RefCell<usize>> = Rc::new(RefCell::new(0));
+    let d2 = dialled.clone();
+    rdest::verif::set_net(Some(Box::new(move |addr: &str| {
+        d2.borrow_mut().push(addr.to_string());
+        None
+    })));
+    let a2 = announces.clone();
+    let script: Vec<TrackerOutcome> = word.iter().map(|f| FAULTS[*f].clone()).collect();
+    let listed = cfgs[1].clone();
+    rdest::verif::set_http(Some(Box::new(move |_req: &reqwest::Request| {
+        let n = *a2.borrow();
+        *a2.borrow_mut() += 1;
+        match script.get(n) {
+            Some(TrackerOutcome::Refused) => httpfake::refused(),
+            Some(TrackerOutcome::Http500) => httpfake::respond(500, b"oops".to_vec()),
+            Some(TrackerOutcome::Garbage) => httpfake::respond(200, b"<html>not bencode</html>".to_vec()),
+            Some(TrackerOutcome::FailureReason) => httpfake::respond(200, b"d14:failure reason11:overloaded!e".to_vec()),
+            // the good reply lists the new peer once; later announces (the dial is refused, so the
+            // client asks again) get an empty list
+            None if n == script.len() => httpfake::respond(200, crate::fullworld::tracker_body(&[&listed])),
+            _ => httpfake::respond(200, b"d8:intervali1800e5:peerslee".to_vec()),
+        }
+    })));
+    let mut steps = 2u64;
+    let id = cfgs[0].id;
+    w.step(&Ev::Feed(0, refwire::encode(&refwire::handshake(t.meta.info_hash(), &id))), &[]);
+    if paused_from == 0 {
+        // cannot be: the manager itself starts the announce task
+        return (steps, Some(("MACHINERY", "paused_from must be >= 1".to_string())));
+    }
+    // the only peer leaves: the manager starts a new announce; its first attempt is made at once
+    w.step(&Ev::Close(0), &[]);
+    if *announces.borrow() != 1 {
+        return (steps, Some(("MACHINERY", format!("expected one announce after the peer left, saw {}", announces.borrow()))));
+    }
+    let mut now = w.now_ms();
+    for k in 1..=word.len() {
+        if k == paused_from {
+            w.step(&Ev::PauseManager, &[]);
+            steps += 1;
+        }
+        now += 1_050;
+        w.step(&Ev::AdvanceTo(now), &[]);
+        steps += 1;
+        if *announces.borrow() != k + 1 {
+            return (steps, Some(("MACHINERY", format!("expected {} announces after {} retries, saw {}", k + 1, k, announces.borrow()))));
+        }
+    }
+    if verbose {
+        println!("after the good reply (manager still away): announces={} dialled={:?} session={}", announces.borrow(), dialled.borrow(), w.session_key());
+    }
+    w.step(&Ev::ResumeManager, &[]);
+    now += 5_000;
+    w.step(&Ev::AdvanceTo(now), &[]);
+    steps += 2;
+    if verbose {
+        println!("manager back: dialled={:?} announces={}", dialled.borrow(), announces.borrow());
+    }
+    if let Some(d) = &w.dead {
+        return (steps, Some(("panic-during-tracker-faults", d.clone())));
+    }
+    if !dialled.borrow().iter().any(|a| *a == cfgs[1].addr) {
+        return (steps, Some(("listed-peers-not-contacted-after-recovery", format!("announces {:?} then a good reply listing {}, all but the first {} reported while the manager was busy; back at work it dialled {:?}", word.iter().map(|f| format!("{:?}", FAULTS[*f])).collect::<Vec<_>>(), cfgs[1].addr, paused_from, dialled.borrow()))));
+    }
+    (steps, None)
+}
+
 fn fault_words(max_n: usize, all_upto: usize) -> Vec<Vec<usize>> {
     let mut words: Vec<Vec<usize>> = vec![vec![]];
     let mut level: Vec<Vec<usize>> = vec![vec![]];
@@ -522,6 +603,33 @@ fn fault_part(ctx: &Ctx) -> (u64, u64, Vec<Value>) {
             }
         }
     }
+    // a busy manager: the reports of the failing and finally succeeding announce task pile up
+    let mut mcases: Vec<(Vec<usize>, usize)> = vec![];
+    for w in &words {
+        if w.len() >= 1 && w.len() <= 3 {
+            for from in 1..=w.len() {
+                mcases.push((w.clone(), from));
+            }
+        }
+    }
+    let mres = core::par_map(
+        &mcases,
+        |w| {
+            core::set_quiet_panics(true);
+            core::private_cwd("c19", &format!("m{}", w))
+        },
+        |dir, _, (word, from)| busy_manager_case(dir, word, *from, false),
+    );
+    for ((word, from), (n, v)) in mcases.iter().zip(mres.iter()) {
+        steps += n;
+        if let Some((class, why)) = v {
+            if *class == "MACHINERY" {
+                ctx.machinery_error(why.clone());
+            } else {
+                ctx.violation(class, format!("{} [busy manager]", why), json!({"kind": "busy", "word": word, "paused_from": from}));
+            }
+        }
+    }
     let mut bcases: Vec<(usize, Vec<usize>)> = vec![];
     for j in 7..=13usize {
         for word in [vec![], vec![0], vec![2, 3], vec![1, 0, 3]] {
@@ -547,7 +655,7 @@ fn fault_part(ctx: &Ctx) -> (u64, u64, Vec<Value>) {
         }
     }
     let samples = vec![json!({"tracker_outcomes": ["Good[P,Q]", "Refused", "Http500", "Good[P,Q,R]"], "peer_events": "P: handshake+bitfield+unchoke; Q: handshake, close; after each failure P toggles choke"})];
-    ((cases.len() + bcases.len() + ccases.len() + lcases.len()) as u64, steps, samples)
+    ((cases.len() + bcases.len() + ccases.len() + lcases.len() + mcases.len()) as u64, steps, samples)
 }
 
 /// Deep nesting goes through the recursive decoder: probe in subprocesses (a stack overflow aborts).
@@ -603,7 +711,7 @@ pub fn run(ctx: &Ctx) -> Outcome {
     o.set("fault_sequences", json!(fault_runs));
     o.set("evaluations", json!(sigma + docs.len() as u64));
     o.set("distinct_nontrivial", json!(accepted));
-    o.set("rule", json!(format!("(a) every string over the C16 alphabet of length 0..={} through TrackerResp::from_bencode (totality); structured replies = peers list of 0..3 entries drawn from 11 entry shapes (2 good, 9 malformed) or missing/ill-typed x 5 interval shapes x 5 failure-reason shapes (absent, text, empty, non-UTF-8, ill-typed), all distinct; non-trivial = structured replies read as success. (b) full-session world (real event_loop, tracker task, retry loop, handle_tracker_cmd, spawn_peer_handler over the seams): tracker outcome words F^n.S for every F-word of length <= 3 (thorough 4) over the four fault kinds (refused, HTTP 500, garbage body, failure reason) and the four homogeneous words for every longer n up to 70 (thorough 100), with a live connection P, each word alone and with another connection ending after 0..2 failures (a KillReq in the middle of the fault sequence); after every failure P toggles choke/unchoke and the manager must have processed it in that quiescent step; after S the listed peers must be contacted; late-fault cases: for words of length 2..3 with a second connection ending during the outage (two announce tasks alive) the tracker fails once more after its first good reply, every fault kind; after every case the probe connection toggles once more and must be served; completion cases: for words of length 2..3 (and the long ones) P delivers every piece after 0..1 failures and another connection ends, so the extractor runs and finishes during the outage, same obligations; budget cases: the good reply (after 0..3 faults) arrives while 7..=13 connected peers are interesting (15 connections from two earlier announces): no panic or hang, still serving, min(3, max(0, 11 - j)) of the 3 listed peers dialled at once and the others exactly once as three connections end; states = fault words, transitions = events executed", max_len)));
+    o.set("rule", json!(format!("(a) every string over the C16 alphabet of length 0..={} through TrackerResp::from_bencode (totality); structured replies = peers list of 0..3 entries drawn from 11 entry shapes (2 good, 9 malformed) or missing/ill-typed x 5 interval shapes x 5 failure-reason shapes (absent, text, empty, non-UTF-8, ill-typed), all distinct; non-trivial = structured replies read as success. (b) full-session world (real event_loop, tracker task, retry loop, handle_tracker_cmd, spawn_peer_handler over the seams): tracker outcome words F^n.S for every F-word of length <= 3 (thorough 4) over the four fault kinds (refused, HTTP 500, garbage body, failure reason) and the four homogeneous words for every longer n up to 70 (thorough 100), with a live connection P, each word alone and with another connection ending after 0..2 failures (a KillReq in the middle of the fault sequence); after every failure P toggles choke/unchoke and the manager must have processed it in that quiescent step; after S the listed peers must be contacted; late-fault cases: for words of length 2..3 with a second connection ending during the outage (two announce tasks alive) the tracker fails once more after its first good reply, every fault kind; after every case the probe connection toggles once more and must be served; completion cases: for words of length 2..3 (and the long ones) P delivers every piece after 0..1 failures and another connection ends, so the extractor runs and finishes during the outage, same obligations; busy-manager cases (pumped world): for every fault word of length 1..3 and every point 1..=n from which the manager stays away from its queues (it awaits something inside a handler) until after the good reply, the reports pile up in the tracker queue; back at work it must dial the listed peer; budget cases: the good reply (after 0..3 faults) arrives while 7..=13 connected peers are interesting (15 connections from two earlier announces): no panic or hang, still serving, min(3, max(0, 11 - j)) of the 3 listed peers dialled at once and the others exactly once as three connections end; states = fault words, transitions = events executed", max_len)));
     o.set("sigma_strings", json!(sigma));
     o.set("structured_replies", json!(docs.len()));
     let picks = ctx.seeded_pick(docs.len(), 4);
@@ -625,6 +733,21 @@ pub fn replay(_ctx: &Ctx, r: &Value) -> i32 {
         let dir = core::private_cwd("c19", "replay");
         core::set_quiet_panics(true);
         return match budget_case(&dir, r["interesting"].as_u64().unwrap() as usize, &word, true).1 {
+            Some((class, why)) => {
+                println!("VIOLATION property=C19 replay=<this file>\n  class={} {}", class, why);
+                1
+            }
+            None => {
+                println!("holds for this case");
+                0
+            }
+        };
+    }
+    if r["kind"] == "busy" {
+        let word: Vec<usize> = r["word"].as_array().unwrap().iter().map(|x| x.as_u64().unwrap() as usize).collect();
+        let dir = core::private_cwd("c19", "replay");
+        core::set_quiet_panics(true);
+        return match busy_manager_case(&dir, &word, r["paused_from"].as_u64().unwrap() as usize, true).1 {
             Some((class, why)) => {
                 println!("VIOLATION property=C19 replay=<this file>\n  class={} {}", class, why);
                 1
